@@ -1155,7 +1155,19 @@ def r7_apply(src, log, map_kind="result", path_map_kind="result", map_or_kind="o
                     o2 = s[k + 2]; c2 = m[o2]
                     inner = src[toks[o2].end:toks[c2].start]
                     parts = inner.split(",")
-                    if len(parts) != 2 or "|" in inner or "(" in inner:
+                    closure_form = None
+                    if "|" in inner:
+                        # Option::map_or(default, |p| BODY)  (closure literal as second argument)
+                        ck2 = s.index(c2)
+                        cl_ = _closure_spans(toks, s, m, k + 2, ck2)
+                        if len(cl_) == 1:
+                            b1_, b2_, bs_, be_ = cl_[0]
+                            dflt = src[toks[o2].end:toks[s[b1_]].start].rstrip().rstrip(",").strip()
+                            if dflt and "|" not in dflt and toks[s[be_]].end <= toks[c2].start and not src[toks[s[be_]].end:toks[c2].start].strip(", \n\t"):
+                                closure_form = (dflt, src[toks[s[b1_]].end:toks[s[b2_]].start].strip(), src[toks[s[bs_]].start:toks[s[be_]].end])
+                        if closure_form is None:
+                            continue
+                    elif len(parts) != 2 or "(" in inner:
                         continue
                     j = k - 1
                     while j >= 0:
@@ -1168,7 +1180,13 @@ def r7_apply(src, log, map_kind="result", path_map_kind="result", map_or_kind="o
                         break
                     r0 = j + 1
                     recv = src[toks[s[r0]].start:t.start].strip()
-                    if map_or_kind == "result":
+                    if closure_form is not None:
+                        dflt, cpat, cbody = closure_form
+                        if map_or_kind == "result":
+                            rep = "(match %s { Ok(%s) => %s, Err(_) => %s })" % (recv, cpat, cbody, dflt)
+                        else:
+                            rep = "(match %s { Some(%s) => %s, None => %s })" % (recv, cpat, cbody, dflt)
+                    elif map_or_kind == "result":
                         rep = "(match %s { Ok(v__) => %s(v__), Err(_) => %s })" % (recv, parts[1].strip(), parts[0].strip())
                     else:
                         rep = "(match %s { Some(v__) => %s(v__), None => %s })" % (recv, parts[1].strip(), parts[0].strip())
@@ -1407,7 +1425,78 @@ def r27_block_in_place(src, log):
     return src
 
 
+def r28_flat_find(src, log):
+    """R28: `RECV.iter().filter_map(|P| F).flatten().find(|Q| G)` ->
+       { let mut found__k = None; let mut ot__k = RECV.iter();
+         'search__k: loop { match ot__k.next() { Some(P) => { match (F) { Some(inner__k) => { let mut in__k = inner__k;
+             loop { match in__k.next() { Some(q__k) => { let Q' = ..; if (G) { found__k = Some(q__k); break 'search__k; } } None => { break; } } } }
+           None => {} } } None => { break; } } }
+         found__k }
+    std definitions: filter_map keeps the Some(..) results in order, flatten iterates each of them in order, find returns the
+    first item for which the predicate holds.  `|&q|` binds q to the item, `|q|` to a reference to it."""
+    n = 0
+    while True:
+        toks = lex(src); m = match_brackets(toks); s = sig(toks)
+        hit = None
+        for k, i in enumerate(s):
+            def at(j, text):
+                return k + j < len(s) and toks[s[k + j]].text == text
+            if not (toks[i].text == "." and at(1, "iter") and at(2, "(") and at(3, ")") and at(4, ".") and at(5, "filter_map") and at(6, "(")):
+                continue
+            o1 = s[k + 6]; c1 = m[o1]; c1k = s.index(c1)
+            def at2(j, text):
+                return c1k + j < len(s) and toks[s[c1k + j]].text == text
+            if not (at2(1, ".") and at2(2, "flatten") and at2(3, "(") and at2(4, ")") and at2(5, ".") and at2(6, "find") and at2(7, "(")):
+                continue
+            o2 = s[c1k + 7]; c2 = m[o2]; c2k = s.index(c2)
+            cl1 = _closure_spans(toks, s, m, k + 6, c1k)
+            cl2 = _closure_spans(toks, s, m, c1k + 7, c2k)
+            if not cl1 or cl1[0][0] != k + 7 or not cl2 or cl2[0][0] != c1k + 8:
+                continue
+            b1, b2, bs, be = cl1[0]
+            p1 = src[toks[s[b1]].end:toks[s[b2]].start].strip()
+            f_body = src[toks[s[bs]].start:toks[s[be]].end]
+            b1, b2, bs, be = cl2[0]
+            p2 = src[toks[s[b1]].end:toks[s[b2]].start].strip()
+            g_body = src[toks[s[bs]].start:toks[s[be]].end]
+            j = k - 1
+            depth = 0
+            while j >= 0:
+                t = toks[s[j]]
+                if t.text == ")":
+                    j = s.index(m[s[j]]) - 1
+                    continue
+                if t.kind == "ident" and t.text in ("let", "return", "mut", "in", "if", "match"):
+                    break
+                if t.kind == "ident" or t.text == ".":
+                    j -= 1
+                    continue
+                break
+            r0 = j + 1
+            recv = src[toks[s[r0]].start:toks[i].start].strip()
+            bind = ("let %s = q__%d;" % (p2[1:].strip(), n)) if p2.startswith("&") else ("let %s = &q__%d;" % (p2, n))
+            def flat(txt):
+                return " ".join("".join(t.text for t in lex(txt) if t.kind != "comment").split())
+            new = ("{ let mut found__%d = None; let mut ot__%d = %s.iter(); 'search__%d: loop /*@flat_find outer*/ { "
+                   "match ot__%d.next() { Some(%s) => { match (%s) { Some(inner__%d) => { let mut in__%d = inner__%d; "
+                   "loop /*@flat_find inner*/ { match in__%d.next() { Some(q__%d) => { %s if (%s) {\n"
+                   "found__%d = Some(q__%d); break 'search__%d;\n"
+                   "} } None => { break; } } } } None => {} } } None => {\n"
+                   "break; /*outer exhausted*/\n"
+                   "} } } found__%d }"
+                   % (n, n, recv, n, n, p1, flat(f_body), n, n, n, n, n, bind, flat(g_body), n, n, n, n))
+            hit = (toks[s[r0]].start, toks[c2].end, new)
+            break
+        if hit is None:
+            break
+        src = _replace(src, [hit])
+        n += 1
+    log["R28"] = log.get("R28", 0) + n
+    return src
+
+
 RULES = {
+    "R28": r28_flat_find,
     "R26": r26_spawn, "R27": r27_block_in_place,
     "R25": r25_map_collect,
     "R21": r21_streq,
@@ -1555,6 +1644,12 @@ def process_template(tpl_path: str, repo: str, variant: dict | None = None) -> U
             a, b = find_item(src, kv["kind"], kv["name"])
             sp = _mk_span(kv["file"], src, a, b, "%s %s" % (kv["kind"], kv["name"]))
             log = {}
+            # derive(Default) with a `#[default]` variant: generate the `default()` that the derive generates
+            default_variant = None
+            if kv["kind"] == "enum" and re.search(r"derive\([^)]*\bDefault\b", sp.text):
+                dv = re.search(r"#\[default\]\s*(\w+)", sp.text)
+                if dv:
+                    default_variant = dv.group(1)
             text = r1_attrs(sp.text, log)
             if kv["kind"] == "const" and "call" in kv:
                 # const NAME: &[u8] = b"..";  ->  external_body fn NAME_() with the literal's bytes
@@ -1586,6 +1681,10 @@ def process_template(tpl_path: str, repo: str, variant: dict | None = None) -> U
                                              ("tpl", i + 1, kv.get("label", "const.%s" % kv["name"]), "contract")))
                 else:
                     res.lines.append(GenLine(l, ("src", sp.file, sp.line0 + min(off, sp.text.count("\n")))))
+            if default_variant:
+                res.lines.append(GenLine("impl core::default::Default for %s { fn default() -> (r: Self) ensures r == %s::%s { %s::%s } }   // derive(Default), #[default] %s"
+                                         % (kv["name"], kv["name"], default_variant, kv["name"], default_variant, default_variant), ("src", sp.file, sp.line0)))
+                log["derive(Default)"] = default_variant
             res.functions.append({"id": kv.get("id", kv["name"]), "kind": "item", "file": sp.file,
                                   "lines": [sp.line0, sp.line0 + sp.text.count("\n")], "sha256": sp.sha256,
                                   "rules": log})
@@ -1888,6 +1987,11 @@ def _gen_function(kv, sections, repo, res: UnitResult, variant) -> list:
         elif sname == "closure":
             kth = int(sarg.split()[0])
             inserts.append(("closure", kth, _label_lines(slines, sline, "closure", "%s.closure%d" % (fid, kth)), "optional" in sarg.split()))
+        elif sname in ("before", "check-before") and sarg.strip().split()[:1] == ["@tail"]:
+            # `//@before @tail`: before the tail expression (the last top-level statement) of the function body, whatever it is
+            is_check = sname.startswith("check-")
+            inserts.append(("before-tail", None, _label_lines(slines, sline, "contract" if is_check else "hint",
+                                                              "%s.%s" % (fid, "check" if is_check else "hint")), "optional" in sarg.split()))
         elif sname in ("before", "after", "check-before", "check-after"):
             mm = re.match(r"/((?:[^/\\]|\\.)*)/\s*(\d+)?\s*(optional)?", sarg)
             if not mm:
@@ -1934,6 +2038,42 @@ def _gen_function(kv, sections, repo, res: UnitResult, variant) -> list:
                 lab = lab + [GenLine("{", ("gen", "closure-block"))]
                 ins_at.append((btoks[bs[be]].end, [GenLine("}", ("gen", "closure-block"))]))
             ins_at.append((btoks[bs[bsx]].start, lab))
+        elif kind == "before-tail":
+            o0 = next((ix for ix, t in enumerate(btoks) if t.kind == "punct" and t.text == "{"), None)
+            if o0 is None:
+                raise ExtractError("anchor lost: @tail (no body block) in %s" % fid)
+            c0 = bm[o0]
+            inner = [ix for ix in range(o0 + 1, c0) if btoks[ix].kind not in ("ws", "comment")]
+            stmt_start = inner[0] if inner else None
+            first_kw = btoks[stmt_start].text if stmt_start is not None else None
+            pos_ = 0
+            while pos_ < len(inner):
+                ix = inner[pos_]
+                t = btoks[ix]
+                if t.kind == "punct" and t.text in "([{":
+                    cix = bm[ix]
+                    # jump over the bracketed group
+                    while pos_ < len(inner) and inner[pos_] < cix:
+                        pos_ += 1
+                    # inner[pos_] is the closing bracket
+                    if t.text == "{" and first_kw in ("loop", "while", "for", "if", "match", "unsafe", "{", "'"):
+                        nxt = btoks[inner[pos_ + 1]] if pos_ + 1 < len(inner) else None
+                        if nxt is not None and nxt.text not in (";", ".", "?", "else", "as", "=", "+", "-", "*", "/", "&", "|", "<", ">"):
+                            stmt_start = inner[pos_ + 1]; first_kw = btoks[stmt_start].text
+                    pos_ += 1
+                    continue
+                if t.kind == "punct" and t.text == ";":
+                    if pos_ + 1 < len(inner):
+                        stmt_start = inner[pos_ + 1]; first_kw = btoks[stmt_start].text
+                    else:
+                        stmt_start = None
+                pos_ += 1
+            if stmt_start is None:
+                raise ExtractError("anchor lost: @tail (body has no tail expression) in %s" % fid)
+            # insert at the start of the line holding the tail's first token if only whitespace precedes it there
+            toff = btoks[stmt_start].start
+            ls = body_now.rfind("\n", 0, toff) + 1
+            ins_at.append((ls if not body_now[ls:toff].strip() else toff, lab))
         elif kind == "before":
             ix = find_line(arg[0], arg[1])
             off = sum(len(g.text) + 1 for g in glines[:ix])
